@@ -26,6 +26,108 @@ def build(repo, tier, seed):
     r.bounded.append(bb if "name" in bb else {"name": "manager_virtual_time", "error": bb.get("error", bb)})
     return r
 
+LOOP_FN = CM + ".connect_loop"
+
+def connect_loop_contract(eng, mk_mgr, getattr_hook, mark):
+    """connect_loop read sequentially (one task; at every await the only state another task changes is the closing event and what the
+    started _try_connect does through its own contract). Loop contract, per iteration:
+      L1 _try_connect is started exactly once and before anything else that touches pacing state
+      L2 _update_connection_lost_circuit_breaker runs iff the attempt left a connection and closing was not observed after waiting for its end; then once
+      L3 the loop itself never calls failure()/reset()/sleep()/the factory and never writes a pacing field (frame)
+      L4 no connection is held at the loop head and at exit; L5 the closing event is cleared on exit"""
+    PACING = ("back_off_connect_error", "connection_lost_back_off_sleep_sec", "connection_lost_back_off_threshold")
+    BREAKER = ("_connection_lost_sleep_before_reconnect", "_connection_lost_last_time")
+    def ev(st, x): st.ghost["calls"] = st.ghost.get("calls", ()) + (x,)
+    def apply_try(e, st, args, ctx, node):
+        ev(st, "try_connect")
+        ok = st.fork(); proto = ok.new_obj("$protocol", {"done": ("future", "done")}); ok.setf(args[0], "_connection", (("transport",), proto)); ok.ghost["conn"] = True
+        no = st.fork(); no.setf(args[0], "_connection", None); no.ghost["conn"] = False
+        return [(ok, ("coro", "try_connect")), (no, ("coro", "try_connect"))]
+    def apply_upd(e, st, args, ctx, node):
+        ev(st, "update"); st.setf(args[0], "_connection_lost_sleep_before_reconnect", SBool(fresh("breaker2", z3.BoolSort())))
+        st.setf(args[0], "_connection_lost_last_time", ("instant", fresh("now2", z3.RealSort()))); return [(st, None)]
+    saved = {k: eng.contracts.get(k) for k in (CM + "._try_connect", CM + "._update_connection_lost_circuit_breaker")}
+    eng.contracts[CM + "._try_connect"] = Contract(apply=apply_try); eng.contracts[CM + "._update_connection_lost_circuit_breaker"] = Contract(apply=apply_upd)
+    def hook(st, base, attr, ctx, node):
+        if isinstance(base, tuple) and base and base[0] == "aevent":
+            if attr == "is_set":
+                def is_set(e, st_, args, ctx_, node_):
+                    b = fresh("closing", z3.BoolSort()); ev(st_, ("is_set", b)); return [(st_, SBool(b))]
+                return [(st, ("abstract", is_set))]
+            if attr == "wait": return [(st, ("abstract", lambda e, st_, args, ctx_, node_: [(st_, ("coro", "closing_wait"))]))]
+            if attr == "clear":
+                def clear(e, st_, args, ctx_, node_): ev(st_, "clear"); return [(st_, None)]
+                return [(st, ("abstract", clear))]
+        return getattr_hook(st, base, attr, ctx, node)
+    old_hook = eng.getattr_hook; eng.getattr_hook = hook
+    old_calls = dict(eng.py_calls)
+    eng.py_calls["asyncio.create_task"] = lambda e, st, args, kw, ctx, node: [(st, ("task", args[0]))]
+    eng.py_calls["asyncio.ensure_future"] = lambda e, st, args, kw, ctx, node: [(st, ("task", args[0]))]
+    def a_wait(e, st, args, kw, ctx, node):
+        what = tuple(t[1] if isinstance(t, tuple) and len(t) == 2 and t[0] == "task" else t for t in (args[0] if isinstance(args[0], (tuple, list)) else [args[0]]))
+        ev(st, ("wait", what)); return [(st, None)]
+    eng.py_calls["asyncio.wait"] = a_wait
+    def fields(st, m): return {k: st.getf(m, k) for k in PACING + BREAKER}
+    def same(a, b):
+        if a is b: return z3.BoolVal(True)
+        if isinstance(a, Ref) or isinstance(b, Ref): return z3.BoolVal(isinstance(a, Ref) and isinstance(b, Ref) and a.oid == b.oid)
+        if a is None or b is None: return z3.BoolVal(a is None and b is None)
+        if isinstance(a, tuple) and isinstance(b, tuple): return z3.BoolVal(len(a) == len(b) and a[0] == b[0] and all(x is y or (hasattr(x, "eq") and x.eq(y)) for x, y in zip(a, b)))
+        if isinstance(a, (bool, SBool)) or isinstance(b, (bool, SBool)): return to_bool(a) == to_bool(b)
+        return to_int(a) == to_int(b)
+    def discipline(st, m, at_exit=False):
+        calls = st.ghost.get("calls", ()); names = [c if isinstance(c, str) else c[0] for c in calls]; head = st.ghost.get("head")
+        out = []
+        conn = st.getf(m, "_connection")
+        out.append(("L4 no connection is held between iterations", z3.BoolVal(conn is None)))
+        if head is None: return out
+        now_f = fields(st, m)
+        out.append(("L3 connect_loop itself never calls failure()/reset()/sleep()/the factory", z3.BoolVal(not any(x in names for x in ("failure", "reset", "sleep", "factory")))))
+        out.append(("L3 frame: strategy object, breaker sleep and threshold are not written by the loop", z3.And([same(now_f[k], head[k]) for k in PACING])))
+        if "update" not in names: out.append(("L3 frame: breaker state changes only through _update_connection_lost_circuit_breaker", z3.And([same(now_f[k], head[k]) for k in BREAKER])))
+        if at_exit:
+            out.append(("exit: no attempt is started and the breaker is not touched after closing was observed", z3.BoolVal("try_connect" not in names and "update" not in names)))
+            out.append(("L5 the closing event is cleared on exit", z3.BoolVal(names.count("clear") == 1 and names[-1] == "clear")))
+            return out
+        if "try_connect" not in names and "update" not in names and "wait" not in names: return out          # loop head: nothing has run in this iteration yet
+        first = [i for i, x in enumerate(names) if x not in ("is_set",)]
+        out.append(("L1 one attempt per iteration, started before anything else", z3.BoolVal(names.count("try_connect") == 1 and bool(first) and names[first[0]] == "try_connect")))
+        established = bool(st.ghost.get("conn"))
+        done_waits = [i for i, c in enumerate(calls) if not isinstance(c, str) and c[0] == "wait" and any(isinstance(w, tuple) and w and w[0] == "future" for w in c[1])]
+        if "update" in names:
+            iu = names.index("update"); reads = [c[1] for c in calls[(done_waits[-1] if done_waits else 0):iu] if not isinstance(c, str) and c[0] == "is_set"]
+            out.append(("L2 the breaker is updated at most once, only after a connection was established and its end was awaited", z3.BoolVal(names.count("update") == 1 and established and bool(done_waits) and done_waits[-1] < iu and bool(reads))))
+            if reads: out.append(("L2 the breaker is updated only when closing was not observed after the connection ended", z3.Not(reads[-1])))
+        elif established:
+            reads = [c[1] for c in calls[(done_waits[-1] if done_waits else len(calls)):] if not isinstance(c, str) and c[0] == "is_set"]
+            out.append(("L2 a lost connection (ended while not closing) updates the breaker: without an update, closing was observed after the connection ended",
+                        z3.And(z3.BoolVal(bool(done_waits)), z3.Or([z3.BoolVal(False)] + reads))))
+        if established: out.append(("the end of an established connection is awaited before the next attempt", z3.BoolVal(bool(done_waits))))
+        return out
+    mref = {}
+    def inv(st, e): return discipline(st, mref["m"])
+    def havoc(st, e):
+        m = mref["m"]; st.ghost["calls"] = (); st.ghost["conn"] = False
+        # pacing state at the loop head is arbitrary (earlier iterations ran attempts and updates): fresh values, then the snapshot the frame clauses compare with
+        st.setf(m, "_connection_lost_sleep_before_reconnect", SBool(fresh("breaker_h", z3.BoolSort())))
+        st.setf(m, "_connection_lost_last_time", ("instant", fresh("last_h", z3.RealSort())))
+        st.ghost["head"] = fields(st, m)
+    eng.loop_specs[(LOOP_FN, 0)] = (inv, None, {}, havoc)
+    def init_l(e):
+        st = State(); m = mk_mgr(st); mref["m"] = m; st.ghost["head"] = None; yield st, [m]
+    def post_l(st, args, res, old, e):
+        for x in discipline(st, args[0], at_exit=True): yield x
+    def raises_l(st, args, exc, old, e):
+        yield f"nothing is raised by connect_loop under the sequential reading ({exc.exc})", z3.BoolVal(False)
+    try:
+        o = eng.verify(LOOP_FN, Contract(init_l, post_l, raises=raises_l))
+    finally:
+        eng.getattr_hook = old_hook; eng.py_calls.clear(); eng.py_calls.update(old_calls)
+        for k, v in saved.items():
+            if v is None: eng.contracts.pop(k, None)
+            else: eng.contracts[k] = v
+    return o
+
 def deductive(repo, tier, seed):
     eng = Engine({"han.common": f"{repo}/han/common.py", "han.meter_connection": f"{repo}/han/meter_connection.py"})
     obls = []
@@ -146,16 +248,23 @@ def deductive(repo, tier, seed):
         calls = st.ghost.get("calls", ()); names = [c if isinstance(c, str) else c[0] for c in calls]
         yield f"only cancellation propagates, strategy untouched ({exc.exc})", z3.BoolVal(exc.exc == "CancelledError" and "failure" not in names and "reset" not in names)
     obls += eng.verify(CM + "._try_connect", Contract(init_t, post_t, raises=raises_t))
+    obls += connect_loop_contract(eng, mk_mgr, getattr_hook, mark)
     obls.append(Obligation("canary.backoff_without_cap", [inv_delay(delay, n), cap >= 1, n >= 1], z3.If(delay < cap, delay, cap) == S.POW2(n - 1), kind="canary", expect_refuted=True,
                            meta={"refute_bound": lambda K: [n <= K + 3]}))
     b = None
-    r = PropResult(obls, eng, functions=[EB + x for x in (".__init__", ".failure", ".reset", ".current_delay_sec")] + [CM + x for x in ("._get_back_off_time", "._update_connection_lost_circuit_breaker", "._try_connect")],
+    r = PropResult(obls, eng, functions=[EB + x for x in (".__init__", ".failure", ".reset", ".current_delay_sec")] + [CM + x for x in ("._get_back_off_time", "._update_connection_lost_circuit_breaker", "._try_connect", ".connect_loop")],
         derived=sorted(eng.derived),
         assumptions=["datetime.utcnow returns some instant; timedelta.total_seconds is the difference of instants (real-valued seconds)",
                      "_try_connect is read sequentially: at every await the only state another task changes is the closing event (every is_set() returns an arbitrary value); asyncio.sleep(t) suspends for t seconds",
-                     "the connection factory either returns a connection, raises an Exception, or is cancelled"],
+                     "the connection factory either returns a connection, raises an Exception, or is cancelled",
+                     "connect_loop is read sequentially under the same rely condition: the task started with create_task(self._try_connect()) takes effect through _try_connect's contract (it leaves a connection or none), "
+                     "asyncio.wait returns without raising, the task running connect_loop is not cancelled, a connection is a (transport, protocol) pair whose protocol has a `done` future; "
+                     "an attempt that is still running when closing wins the wait is outside this reading (C17, not applicable)"],
         explanation="C18: ghost failure counter n on the strategy object: invariant _delay == pow2(n-1) (0 for n == 0), failure/reset/current_delay_sec contracts for every max_delay >= 1 and every n (unbounded, "
-                    "pow2 recursive); _get_back_off_time, the loss breaker update and the sequential contract of _try_connect (sleep exactly the back-off time before the single factory call; failure()/reset() exactly once).")
-    r.not_decided = ["manager-level timing (when connect_loop's tasks run relative to each other) depends on asyncio scheduling: not decided by per-call contracts; covered by the BOUNDED run manager_virtual_time "
+                    "pow2 recursive); _get_back_off_time, the loss breaker update and the sequential contract of _try_connect (sleep exactly the back-off time before the single factory call; failure()/reset() exactly once); loop contract of connect_loop (L1 one attempt per iteration and first, "
+                    "L2 breaker update iff a connection ended while not closing, L3 the loop never touches pacing state itself, L4 no connection held between iterations, L5 closing cleared on exit). "
+                    "Composition by hand: loss k+1 within the threshold of loss k => breaker set (update contract) => nothing writes it before the next attempt (L1, L3) => _get_back_off_time >= sleep => "
+                    "_try_connect sleeps it before the factory call; failures since the last success = ghost n => the next attempt sleeps >= min(2^(n-1), max_delay).")
+    r.not_decided = ["manager-level timing beyond the sequential reading (how long the scheduler takes to run a ready task: the upper bound 'plus scheduling slack'; an attempt still running after close()) depends on asyncio scheduling: not decided by per-call contracts; covered by the BOUNDED run manager_virtual_time "
                      "(the real connect_loop on a real event loop with a virtual clock, every attempt-outcome sequence up to a length)"]
     return r
